@@ -10,6 +10,24 @@ for l in open(os.path.join(HERE, "properties.jsonl")):
 # id -> (level text, level note, technique, design_ref)
 TECH = 'Lean 4 proof about hand-written model + differential correspondence with the implementation'
 CLAIMS = {
+    'C10': (
+        'Lean 4 theorems about the scan model for every tree, every option record and ANY level limit: internal_invariant / internal_invariant_perm / internal_invariant_errors (two runs that differ only in exclude_external_libraries and external exclusion patterns have the same internal modules, internal imports and internal hierarchy edges, and fail on the same inputs), externals_excluded (default: every node is a parsed module or one of its ancestors, every import ends in an internal module), externals_included / externals_included_limit (a retained external importee and all its ancestors are nodes with the import edge; an external matching a pattern, or with a matching ancestor, is neither node nor edge end). Tie: real scans under all option sets vs the model; internal sub-architecture compared across option sets on the implementation.',
+        'Trusted: Lean kernel, harness/driver; user regexes uninterpreted; the directory walk and the AST are parameters of the model.',
+        TECH,
+        '6/C10',
+    ),
+    'C05': (
+        "Lean 4 theorem Pta.C05.layer_verdict: for every well-formed architecture, every layered architecture whose layers list pairwise unrelated existing modules (by name list or by regex, mixed), every LayerRule (12 shapes + 2 'any layer' aliases, any number of object layers, any number of unmentioned layers of either kind), the model of LayerRule.assert_applies passes exactly when the documented layer semantics hold; layer_verdict_chain ties it to the fluent call chain, unmentioned_layers_irrelevant, layerOf_correct (never LayerMismatch on the domain), layer_report_sound (every reported import is an import edge between different layers). Tie: real LayerRule.assert_applies vs model vs specification on generated graphs x layer partitions x rules.",
+        "Domain: layerDomain (layers non-empty, listed modules exist and are pairwise unrelated, subject and object layers distinct and defined); 'anything' only with should_not (otherwise a configuration error, proved). Regex engine uninterpreted (mt). Trusted: Lean kernel, harness/driver.",
+        TECH,
+        '6/C05',
+    ),
+    'C02': (
+        "Lean 4 theorems: statement level, for every well-formed importer, module set and statement (absolute, from, relative forms): ImportConverter._convert names exactly the modules the specification names and raises exactly when a relative import reaches above the root (Pta.C02.convertStmt_spec, convertStmt_error_iff, relativeImportee_spec); graph level, default options, any exclusions: the import edges of the scan graph are exactly the specification's edges (scan_imports_exact, scan_imports_exact_nocollision, scan_error_iff, parent_child_not_import) relative to the directory-walk hypotheses ScanHyps, whose decidable form scanCheck is shown satisfiable on four example trees. Tie: real files written to a tmpfs and scanned with get_evaluable_architecture vs the model (fed each file's Import/ImportFrom nodes as enumerated by ast.walk) vs the specification, over every statement-list position of the running interpreter's grammar x every import form, and random trees.",
+        "Partial: 'nested at any depth' is outside the model (the AST walk is a parameter; the harness enumerates positions from the running interpreter's ast and prints coverage gaps); ScanHyps (walk = surviving entries) is C04's part and stays a hypothesis of the graph-level theorems; a file x.py next to a package directory x/ is outside the domain (hierarchy edge and import edge collide in the backend; collision_counterexample). Trusted: Lean kernel, harness/driver, CPython ast.",
+        TECH,
+        '6/C02',
+    ),
     'C01': (
         'Lean 4 theorems (Pta.C01.verdict_spec, verdict_spec_of_graph, report_spec, unknown_name_no_verdict) about an executable model of the rule pipeline (graph construction, the three graph searches, flag tables, eight violation buckets) and an independent declarative specification of the documented semantics: for every well-formed architecture and every strict rule the model verdict equals the specification. The model is tied to /repo on every run by a correspondence run (real assert_applies vs model vs specification; exhaustive over all import relations on small trees, seeded random beyond).',
         'Trusted: Lean kernel; harness + driver; model-to-code agreement rests on the correspondence run (differential, exhaustive only on the small scopes named in the evidence); strict oracle only on pairwise unrelated subjects/objects and architectures where no package imports its own descendant.',
@@ -53,8 +71,8 @@ CLAIMS = {
         '6/C13',
     ),
     'C14': (
-        'Lean 4 theorems: the boundary-aware raw-string tests of the (repaired) code equal the component-level prefix relation (raw_test_is_prefix), and the documented semantics, violating sets, domain predicates, model verdicts (strict domain), nearest-alias labelling and layer lookup are invariant under every injective renaming of components (desc_ren, verdict_ren, violating_ren, domain_ren, model_verdict_ren, nearest_alias_ren, layerOf_ren). Tie: every case evaluated on the real code under a collision-free and an adversarial renaming, outcomes compared up to renaming and with the model.',
-        'Model-verdict invariance is proved on the strict domain (via C01); outside it invariance is checked on the implementation by the renaming runs. Trusted: Lean kernel, harness/driver.',
+        "Lean 4 theorems: the boundary-aware raw-string tests of the (repaired) code equal the component-level prefix relation (raw_test_is_prefix); the documented semantics commutes with every injective renaming of components (desc_ren, verdict_ren, violating_ren, domain_ren); and the CODE MODEL does so for ALL rules - related names, batches, 'anything' with its de-duplication - as an exact equality of the whole outcome: model_outcome_ren / model_report_ren / model_verdict_ren_all / model_atoms_ren (same verdict class, same error kind, same report lines in the same order with every name renamed), via the generic isomorphism invariance model_iso; layerOf_ren, labels_ren / label_ren / nearest_alias_ren, isInternal_ren. Tie: every case evaluated on the real code under a collision-free and an adversarial renaming, outcomes compared up to renaming and with the model.",
+        'Layer-rule verdict invariance follows on the C05 domain from layer_verdict + layerOf_ren (not stated as one theorem); outside it invariance is checked on the implementation by the renaming runs. Trusted: Lean kernel, harness/driver.',
         TECH,
         '6/C14',
     ),
